@@ -10,7 +10,7 @@ use serde_json::json;
 pub static SPEC: PropSpec = PropSpec {
     id: "C10",
     level: "exploration",
-    rule: "cases: (type, operator, operand pair) evaluations. int8 / uint8: ALL 65,536 operand pairs x {+ - * / < <= > >= == !=} and all 256 operands of unary minus with operands held in variables (quick: + - / < on int8 and * <= on uint8; thorough: everything); all ten integer types: boundary x boundary and random pairs as variables and as literals (constant path); literal spellings 0..300 and the boundary neighbourhoods of every type in suffix / negated / pattern position with out-of-range spellings required to be rejected; division by zero must fail at run time (also when the quotient is unused, also MIN / -1 wraps); float32 / float64 arithmetic compared against correctly rounded results through ==; float32 literals next to rounding midpoints; *_to_string must be the decimal numeral (integers) / a readable numeral of the same value (floats). non-trivial = operand pair other than (0|1, 0|1); distinct by (type, op, pair)",
+    rule: "cases: (type, operator, operand pair) evaluations. int8 / uint8: ALL 65,536 operand pairs x {+ - * / < <= > >= == !=} and all 256 operands of unary minus with operands held in variables (quick: + - / < on int8 and * <= on uint8; thorough: everything); all ten integer types: boundary x boundary and random pairs as variables and as literals (constant path); compound expressions (prefix minus against each binary operator on either side, each pair of binary operators in both nestings, random trees) printed with minimal parentheses at boundary operand triples of all ten types; literal spellings 0..300 and the boundary neighbourhoods of every type in suffix / negated / pattern position with out-of-range spellings required to be rejected; division by zero must fail at run time (also when the quotient is unused, also MIN / -1 wraps); float32 / float64 arithmetic compared against correctly rounded results through ==; float32 literals next to rounding midpoints; *_to_string must be the decimal numeral (integers) / a readable numeral of the same value (floats). non-trivial = operand pair other than (0|1, 0|1); distinct by (type, op, pair)",
     eval_counter: "evaluations",
     assumptions: &[
         "gomini implements Go's sized integer and float32/float64 arithmetic and constant conversion (calibrated by its own positive controls)",
